@@ -184,6 +184,26 @@ def gen_connclose_code(rnd):
     return dict(nchan=nchan, threads=threads, events=[(rnd.randrange(0, 3), ('connclose', code))])
 
 
+def gen_fault(rnd):
+    """C06: the socket dies while 1-3 threads declare / publish / open channels / ack."""
+    nchan = rnd.choice([1, 2])
+    threads = []
+    for t in range(rnd.choice([1, 2, 3])):
+        ops = []
+        for j in range(rnd.randrange(1, 4)):
+            c = rnd.randrange(1, nchan + 1)
+            ops.append((c, rnd.choice([('declare', b'f%d%d' % (t, j)), ('publish', b'Ap', False),
+                                       ('open',), ('open',), ('ack',), ('check',)])))
+        threads.append(ops)
+    return dict(nchan=nchan, threads=threads, confirm=[1] if rnd.random() < 0.3 else [],
+                events=[(rnd.randrange(0, 4), ('drop',))])
+
+
+def gen_openfault(rnd):
+    """C06: the peer closes the socket right after accepting it, open() in progress."""
+    return dict(nchan=0, threads=[[(0, ('conn_open',))]], no_setup=True, eof_on_connect=True)
+
+
 def gen_wire(rnd):
     """C01: publishers (bodies of 0..3 frames), acks and calls on shared and separate channels."""
     nchan = rnd.choice([1, 2, 2])
